@@ -1366,5 +1366,122 @@ func c13HuntedRules(ctx *Ctx, r *Report, ts *tmplSet, branches []tmplBranch) {
 			file+": the scalar branch compares every scalar with `!=`, the bytes kind included, which the type formatter declares []byte: `resource.B != other.B` — invalid operation: slice can only be compared to nil — the package does not type-check with generate_equal")
 		r.Check(strings.Contains(txt, ".Equal("), "skeleton/equality-time", "type_equality_check scalar branch handles time.Time", token.NoPos, "date-time values are compared with Equal",
 			file+": date-time fields are declared time.Time and compared with `!=`, which also compares the *Location pointers: two values decoded from the same document are unequal as soon as the offset is not UTC or a whole hour (+05:30)")
+	}	// (d) a field referring to a constant is declared with the constant's own type (formatField drops the pointer):
+	// the struct branch must not walk it as nullable
+	if p := ctx.Pkg("internal/jennies/golang"); p != nil {
+		substitutes := false
+		for _, f := range p.Syntax {
+			for _, d := range f.Decls {
+				fd, ok := d.(*ast.FuncDecl)
+				if !ok || fd.Name.Name != "formatField" || fd.Body == nil {
+					continue
+				}
+				ast.Inspect(fd.Body, func(n ast.Node) bool {
+					if c, ok := n.(*ast.CallExpr); ok {
+						if fn := callee(p.TypesInfo, c); fn != nil && fn.Name() == "IsConcreteScalar" {
+							substitutes = true
+						}
+					}
+					return true
+				})
+			}
+		}
+		r.Count("hunted clauses of the equality template", 1)
+		for _, b := range branches {
+			if b.cond == nil || !strings.Contains(b.cond.String(), ".Type.IsStruct") {
+				continue
+			}
+			for _, args := range recursiveCalls(b.body, recEquality.define) {
+				nullable := args["Nullable"]
+				r.Check(!substitutes || strings.Contains(nullable, "IsConcreteScalar"), "skeleton/equality-constant-field-not-pointer", "type_equality_check struct branch: Nullable of a field", token.NoPos,
+					"the field's nullability excludes references to constants, as golang.formatField does (Nullable="+nullable+")",
+					file+": golang.formatField declares a field referring to a constant with the constant's own type (`K string`, never a pointer), but the struct branch walks the field with Nullable="+nullable+": for an optional `k?: #K` the method emits `resource.K == nil` and `*resource.K` — the package does not type-check with generate_equal")
+			}
+		}
 	}
+	// (e) a reference to an alias of a nullable type (`type MaybeE = *E`) is a pointer although the reference is not nullable
+	aliasAt, arrayAt, scalarAt, deepCond := -1, -1, -1, (*parse.PipeNode)(nil)
+	for i, b := range branches {
+		if b.cond == nil {
+			continue
+		}
+		c := b.cond.String()
+		switch {
+		case strings.Contains(c, "resolveNullableAlias") && aliasAt < 0:
+			aliasAt = i
+		case strings.Contains(c, "resolvesToArray") && arrayAt < 0:
+			arrayAt = i
+		case strings.Contains(c, "resolvesToScalar") && scalarAt < 0:
+			scalarAt = i
+		}
+		if strings.Contains(tmplText(b.body), "DeepEqual") && deepCond == nil {
+			deepCond = b.cond
+		}
+	}
+	r.Count("hunted clauses of the equality template", 2)
+	aliasOK := aliasAt >= 0 && (arrayAt < 0 || aliasAt < arrayAt) && (scalarAt < 0 || aliasAt < scalarAt)
+	if aliasOK {
+		calls := recursiveCalls(branches[aliasAt].body, recEquality.define)
+		aliasOK = len(calls) > 0
+		for _, args := range calls {
+			if !strings.Contains(args["Type"], "resolveNullableAlias") || args["Nullable"] != "true" {
+				aliasOK = false
+			}
+		}
+	}
+	r.Check(aliasOK, "skeleton/equality-nullable-alias", "type_equality_check follows aliases of nullable types", token.NoPos, "a branch placed before the collection and scalar branches compares the value as the nullable type the alias goes through",
+		file+": no branch (ahead of the array, map and scalar branches) re-enters the comparison with the nullable type a reference goes through (`MaybeE: E | null` is declared `type MaybeE = *E`): a field `level: #MaybeE` is compared with `!=` on the pointers — two values decoded from the same document are unequal — and through an alias of a nullable array or struct the method does not type-check")
+	// (f) DeepEqual tells nil from empty: it is only for the reference that closes a recursive collection, never for the levels above
+	deepOK := deepCond != nil
+	if deepCond != nil {
+		walkTmpl(deepCond, func(n parse.Node) bool {
+			cmd, ok := n.(*parse.CommandNode)
+			if !ok || len(cmd.Args) == 0 {
+				return true
+			}
+			id, _ := cmd.Args[0].(*parse.IdentifierNode)
+			if id == nil || id.Ident == "and" {
+				return true
+			}
+			// a command other than `and` holding isRecursiveCollection directly (in a nested pipe) is an unguarded use
+			for _, a := range cmd.Args[1:] {
+				if pn, ok := a.(*parse.PipeNode); ok && len(pn.Cmds) == 1 && len(pn.Cmds[0].Args) > 0 {
+					if in, _ := pn.Cmds[0].Args[0].(*parse.IdentifierNode); in != nil && in.Ident == "isRecursiveCollection" {
+						deepOK = false
+					}
+				}
+			}
+			return true
+		})
+		// and the `and` that holds it also tests .Type.IsRef
+		walkTmpl(deepCond, func(n parse.Node) bool {
+			cmd, ok := n.(*parse.CommandNode)
+			if !ok || len(cmd.Args) == 0 {
+				return true
+			}
+			id, _ := cmd.Args[0].(*parse.IdentifierNode)
+			if id == nil || id.Ident != "and" {
+				return true
+			}
+			holds, isRef := false, false
+			for _, a := range cmd.Args[1:] {
+				if strings.Contains(a.String(), "isRecursiveCollection") {
+					holds = true
+				}
+				if strings.TrimSpace(a.String()) == ".Type.IsRef" {
+					isRef = true
+				}
+			}
+			if holds && !isRef {
+				deepOK = false
+			}
+			return true
+		})
+		if id, _ := deepCond.Cmds[0].Args[0].(*parse.IdentifierNode); id != nil && id.Ident == "isRecursiveCollection" {
+			deepOK = false
+		}
+	}
+	r.Check(deepOK, "skeleton/equality-deepequal-at-reference", "type_equality_check DeepEqual branch: recursive collections", token.NoPos, "isRecursiveCollection selects the DeepEqual branch only for a reference",
+		file+": the reflect.DeepEqual branch is selected by isRecursiveCollection on any type, inline arrays and maps included: an optional `forest?: [...#Tree]` (omitempty) is compared with DeepEqual, which tells nil from empty — two values encoding to the same JSON are unequal; only the reference closing the loop needs DeepEqual")
 }
+
